@@ -127,6 +127,16 @@ func init() {
 					}
 				}
 			}
+			// entries that opt in to environment expansion keep their type and tag
+			for _, typ := range c08Types {
+				for _, tag := range tags {
+					e := c08Entry(typ, tag, 1, false)
+					e.Expand = true
+					if !yield(C08Case{Part: "expand", List: []model.Entry{e, c08Entry("config", "", 2, false)}}) {
+						return
+					}
+				}
+			}
 			// configuration files (and the rpm-only kinds) whose names need care in some metadata syntax
 			for _, name := range c08Names {
 				for _, typ := range []string{"config", "config|noreplace", "config|missingok", "ghost", "doc", ""} {
